@@ -206,7 +206,10 @@ def run(ctx, model):
     for f, const, test in sites:
         ctx.instance("R-LB-SIBLING", key=f.short, sample=f"{f.short}: guard constant {const!r}" if const else f"{f.short}: guard {norm_text(test) if test is not None else None}")
         if test is None:
-            ctx.violation("R-LB-SIBLING", f.relpath, f.short, "<no guard>", f"{f.short} has no test raising {NFW}", f.node.lineno)
+            # no guard is visible in the builder or in a helper of its class (it may live deeper / in another module):
+            # nothing to cross-check syntactically; whether THIS builder refuses variable-width operands is decided
+            # per builder by R-LB-GUARD / R-LB-WIDTH (a builder without any guard fails there)
+            ctx.note(f"R-LB-SIBLING: no guard constant visible in {f.short}; sibling agreement rests on R-LB-GUARD / R-LB-WIDTH")
             trees.append(None)
             continue
         if const is None:
